@@ -59,7 +59,7 @@ def kw_class(inv):
     return 'KWParent' if 'func' in inv['kw'] else ('KWChild' if set(inv['kw']) & {'tx', 'fun'} else 'KWNone')
 
 
-def coq_case(inv, r):
+def coq_case(inv, r, ref=None):
     out = {'ok': 'COk', 'raise': 'CRaise', 'die': 'CDie'}[inv['out']]
     path = coq_list([coq_nat(x) for x in (inv['exc'] if inv['out'] == 'raise' else [])])
     kill = {'none': 'KNone', 'after_fork': 'KAfterFork', 'in_callee': 'KInCallee', 'mid_send': 'KMidSend'}[inv['kill']]
@@ -71,7 +71,7 @@ def coq_case(inv, r):
     killed = bool(r.get('killed')) if r else False
     return (f'eval_case {out} {path} {coq_bool(inv["big"])} {coq_bool(inv["pick"])} {coq_bool(inv["async"])} '
             f'{coq_bool(inv["reterr"])} {coq_bool(bool(inv.get("unp")) and inv["pick"])} {kw_class(inv)} {kill} '
-            f'{coq_bool(killed)} {obs}')
+            f'{coq_bool(killed)} {obs} {coq_list([coq_nat(x) for x in (ref or [])])}')
 
 
 # ---- generators ---------------------------------------------------------------------------------------------------------
@@ -175,6 +175,13 @@ def gen_concurrent(rng, tier, scale):
 
 
 # ---- judging ---------------------------------------------------------------------------------------------------------------
+REF = {}     # the report observed for the plainest death in the current evaluation
+
+
+def name_of(path):
+    return next((k for k, v in EXC.items() if v == path), str(path))
+
+
 def show(final):
     code, path = final
     name = next((k for k, v in EXC.items() if v == path), str(path))
@@ -193,10 +200,13 @@ def judge_inv(inv, r, m):
         fails.append('the awaiting task received the outcome of ANOTHER concurrent invocation')
     if m is None:
         return fails, 'model evaluation failed'
-    m_done, m_kind, m_clean, m_killed, spec_obs, demand = m[:6]
-    m_path = m[7:7 + m[6]]
+    m_done, m_kind, m_clean, m_killed, spec_obs, demand, uniform = m[:7]
+    m_path = m[8:8 + m[7]]
     if not r.get('hang') and code not in (6, 7) and spec_obs != 1:
         fails.append(f'the awaiting task {show(r["final"])} where the statement demands {DEMAND.get(demand)}')
+    if not r.get('hang') and code == 5 and uniform != 1:
+        fails.append(f'the death of the child is reported by {name_of(r["final"][1])} here, but by {name_of(REF.get("path"))} when the child '
+                     f'simply exits before sending anything (the report of a silent child death depends on the crash point)')
     if r.get('open_ends'):
         fails.append('pipe end of the invocation still open in the parent when the await hands over the outcome')
     if r.get('unreaped'):
@@ -247,12 +257,20 @@ class Runner:
 
     def evaluate(self, cases, shards=None):
         """-> list of dicts: case, impl, models (per invocation), inv_fails, batch_fails, corr"""
-        impl = self.ck.run_impl('w_subproc', cases, timeout=900, shards=shards or min(NPROC, 8, max(1, len(cases) // 3)))
+        # reference report: what the awaiting task gets when the child exits before sending anything (Spec.report_uniform)
+        refcase = {'invs': [{'out': 'die', 'exc': EXC['ValueError'], 'die': 'os_exit', 'big': False, 'pick': True, 'async': False,
+                             'reterr': False, 'kill': 'none', 'via': 'func', 'dur': 0, 'ticks': False, 'nonce': 1, 'kw': {}, 'unp': False}]}
+        impl = self.ck.run_impl('w_subproc', [refcase] + cases, timeout=900,
+                                shards=shards or min(NPROC, 8, max(1, len(cases) // 3)))
+        r0, impl = impl[0], impl[1:]
+        f0 = (r0 or {}).get('invs', [{}])[0].get('final') if r0 and 'invs' in r0 else None
+        ref = f0[1] if f0 and f0[0] == 5 and f0[1] else None
+        REF['path'] = ref
         terms, where = [], []
         for ci, (c, r) in enumerate(zip(cases, impl)):
             rs = r.get('invs') if r and 'invs' in r else [None] * len(c['invs'])
             for ii, inv in enumerate(c['invs']):
-                terms.append(coq_case(inv, rs[ii] if ii < len(rs) else None))
+                terms.append(coq_case(inv, rs[ii] if ii < len(rs) else None, ref))
                 where.append((ci, ii))
         models = self.ck.coq_eval(PRE, terms) if self.ck.model_ok else [None] * len(terms)
         per = [[None] * len(c['invs']) for c in cases]
